@@ -18,6 +18,9 @@ EXTENDS MaterialsDefs
 
 CONSTANTS Vals,          \* diagonal values of the permittivity tensors that are enumerated
           MaxMats,       \* size of the dictionary
+          AllFormatsUpTo,\* dictionary positions 1..AllFormatsUpTo are entered in EVERY applicable format; later positions
+                         \* only as 9-tuples (formats are a per-material matter, and every PAIR of inputs is compared by
+                         \* FormatIndependent over the whole universe anyway; ordering only depends on the stored tuples)
           NormVariant,   \* "rowmajor" (design) | "colmajor" | "diag_bcast" (negative instances)
           SortVariant    \* "common" (design) | "own_key" (negative: every list sorted by its own first component)
 
@@ -47,7 +50,8 @@ Add(e, u, s, t) ==
     /\ Len(dict) < MaxMats
     /\ LET src == [ eps |-> e, mu |-> u, se |-> s, sm |-> t ]
        IN  dict' = Append(dict, [ name |-> NameOf(Len(dict) + 1), src |-> src, m |-> Store(src) ])
-Next == \E e \in EpsInputs, u \in MuInputs, s \in SeInputs, t \in SmInputs : Add(e, u, s, t)
+EpsInputsAt(k) == IF k <= AllFormatsUpTo THEN EpsInputs ELSE { [ fmt |-> "flat9", v |-> x ] : x \in EpsTensors }
+Next == \E e \in EpsInputsAt(Len(dict) + 1), u \in MuInputs, s \in SeInputs, t \in SmInputs : Add(e, u, s, t)
 Spec == Init /\ [][Next]_vars
 
 \* what the list functions return (every one of them sorts the dictionary itself)
